@@ -109,3 +109,9 @@ func VH_C02_sendCounterDisjointFromHandshake() bool {
 	}
 	return !s.canSend() || s.nonce >= noncePostHandshake
 }
+
+// verif: replay=none time=concrete unwind=130 cover=promoted,app-data bounds="channel level (same step as C05): application data is returned only from an established session with the channel's accepted key; see VH_C05_channelStep for the state space"
+func VH_C02_channelDeliversOnlyFromEstablished() bool { return vChannelStep() }
+
+// verif: replay=none unwind=130 cover=data-accepted,init-done-accepted bounds="handshake level (same step as C03): data only after authentication and the send counter never decreases, so no key/counter pair is ever reused; see VH_C03_handshakeStep for the state space"
+func VH_C02_noCounterReuseAcrossHandshake() bool { return vHandshakeStep() }
